@@ -1,7 +1,7 @@
 """C16 - activity-coefficient models are normalised, consistent and side-effect free."""
 import random
 
-from harness import core, tlc
+from harness import core, par, replayjob, tlc
 from harness.drivers import activity as da
 
 ASSUME = [
@@ -48,6 +48,38 @@ def key_of(step, clause):
     return 'Activity:%s:model=%s,kind=%s:%s' % (step['op'], a.get('model', '-'), a.get('kind', '-'), clause)
 
 
+def eval_case(seed, k):
+    rng = random.Random(seed)
+    out = []
+    model = rng.choice(['UNIFAC', 'UNIFAC', 'Dortmund', 'Dortmund', 'NIST', 'Ideal'])
+    n = rng.randint(2, 6)
+    n_plain = rng.choice([0, 0, 1, 2]) if n > 2 else 0
+    ids = rng.sample(da.GROUPED, n - n_plain) + rng.sample(da.PLAIN, n_plain)
+    rng.shuffle(ids)
+    kind = rng.choice(['interior', 'interior', 'interior', 'vertex', 'near', 'trace', 'edge'])
+    x = da.random_x(rng, n, kind)
+    T = rng.uniform(250, 450)
+    perm = list(range(n))
+    while perm == list(range(n)):
+        rng.shuffle(perm)
+    obs = da.evaluate(model, ids, x, T, perm, [rng.uniform(-1, 1) for _ in range(n)])
+    out.append(dict(op='eval', a=dict(model=model, ids=ids, kind=kind, T=int(T * 1000), x9=[int(round(v * 1e9)) for v in x], perm=perm), post=dict(n=0), obs=obs,
+                    job=[seed, k]))
+    if k % 10 == 0:
+        obs = da.ideal_models(ids, x, T, rng.choice([101325., 1e6]))
+        out.append(dict(op='ideal', a=dict(model='ideal', ids=ids, kind=kind), post=dict(n=0), obs=obs, job=[seed, k]))
+    return out
+
+
+def replay_eval(seed, k):
+    steps = []
+    for s in eval_case(seed, k):
+        s = dict(s)
+        s.pop('job', None)
+        steps.append(s)
+    return dict(id='G0', mode='fan', init=dict(n=0), steps=steps)
+
+
 def run(ctx):
     rng = random.Random(ctx.seed)
     quick = ctx.quick
@@ -65,24 +97,7 @@ def run(ctx):
         if rd.violated not in ('CallerUntouched', 'PositionFree'):
             raise tlc.MachineryError('deviation %s should violate an invariant (vacuity guard), got %r' % (dev, rd.violated))
         guards.append('%s -> %s' % (dev.strip('"'), rd.violated))
-    steps = []
-    for k in range(400 if quick else 12000):
-        model = rng.choice(['UNIFAC', 'UNIFAC', 'Dortmund', 'Dortmund', 'NIST', 'Ideal'])
-        n = rng.randint(2, 6)
-        n_plain = rng.choice([0, 0, 1, 2]) if n > 2 else 0
-        ids = rng.sample(da.GROUPED, n - n_plain) + rng.sample(da.PLAIN, n_plain)
-        rng.shuffle(ids)
-        kind = rng.choice(['interior', 'interior', 'interior', 'vertex', 'near', 'trace', 'edge'])
-        x = da.random_x(rng, n, kind)
-        T = rng.uniform(250, 450)
-        perm = list(range(n))
-        while perm == list(range(n)):
-            rng.shuffle(perm)
-        obs = da.evaluate(model, ids, x, T, perm, [rng.uniform(-1, 1) for _ in range(n)])
-        steps.append(dict(op='eval', a=dict(model=model, ids=ids, kind=kind, T=int(T * 1000), x9=[int(round(v * 1e9)) for v in x], perm=perm), post=dict(n=0), obs=obs))
-        if k % 10 == 0:
-            obs = da.ideal_models(ids, x, T, rng.choice([101325., 1e6]))
-            steps.append(dict(op='ideal', a=dict(model='ideal', ids=ids, kind=kind), post=dict(n=0), obs=obs))
+    steps = [s for lst in par.pmap(eval_case, [('%d:e%d' % (ctx.seed, k), k) for k in range(400 if quick else 12000)]) for s in lst]
     per = 50
     traces = [dict(id='G%d' % i, mode='fan', init=dict(n=0), steps=steps[i * per:(i + 1) * per]) for i in range((len(steps) + per - 1) // per)]
     defs, cfgc = da.tla_constants()
@@ -97,7 +112,7 @@ def run(ctx):
             cases.append((True, [s['op'], s['a']]))
             if l in bad:
                 ctx.violation(key_of(s, bad[l]), '%s %r: %s obs=%r' % (s['op'], s['a'], bad[l], s['obs']),
-                              dict(kind='note', detail='re-run the check with the same seed', op=s['op'], a=s['a'], clause=bad[l]))
+                              dict(kind='job', func='replay_eval', args=s['job'], clause=bad[l]))
             else:
                 n_ok += 1
                 m = s['a'].get('model')
@@ -116,6 +131,4 @@ def run(ctx):
 
 
 def replay(ctx, data):
-    print('# C16 violations: re-run ./check C16 with the recorded seed')
-    print(data.get('what', ''))
-    return 1
+    return replayjob.run('C16', data, dict(replay_eval=replay_eval), 'Activity', da.tla_constants())
